@@ -130,7 +130,10 @@ func opClasses() []opClass {
 				e := -ref.NumDigits(c) - r.Pick(0, 0, 1, 5, 40, 3000)
 				return cohortOf(r, neg, c, gen.ClampExp(e))
 			case "one":
-				return cohortOf(r, neg, big.NewInt(1), 0)
+				// any of the 35 encodings of one (10^k e-k): the library recognises one by comparing the coefficient
+				// with a table of powers of ten (seed C11-pow10-table-entry-1e23-typo: one wrong entry)
+				k := r.Intn(35)
+				return ref.Encode(neg, ref.Pow10(k), -k)
 			case "nonint": // > 1, not an integer
 				if r.Chance(1, 10) {
 					// binary image: the low word of the coefficient alone spells a special value (10^j = "one" at
